@@ -9,6 +9,7 @@ DRIVERS = {
     'sqf_tokenizer': {'src': 'replay/drivers/sqf_tokenizer.cpp', 'flags': [], 'search_arg': '4'},
     'config_tokenizer': {'src': 'replay/drivers/sqf_tokenizer.cpp', 'flags': ['-DCONFIG_TOK'], 'search_arg': '4'},
     'pbofile': {'src': 'replay/drivers/pbofile.cpp', 'flags': [], 'search_arg': '0'},
+    'pp_reader': {'src': 'replay/drivers/pp_reader.cpp', 'flags': [], 'search_arg': '7'},
     'call_binary': {'vm': 'call_binary'},
     'sqf_yylex': {'vm': 'sqf_yylex'},
 }
